@@ -1034,6 +1034,14 @@ class Polar:
             return Polar(a.e, self.tau * int(k))
         return NotImplemented
 
+    @property
+    def real(self):
+        return self.cartesian().re
+
+    @property
+    def imag(self):
+        return self.cartesian().im
+
     def cartesian(self):
         """Exact at multiples of a quarter turn when the solver can show it; else cos/sin model."""
         t = z3.simplify(self.tau * 4)
